@@ -6,6 +6,8 @@ model `Model/VpscStatic.lean`, which the C01 driver runs against the real solver
 
 All statements are for every number of variables / constraints and arbitrary rational data.
 What is proved:
+ * `static_totalOrder_topological` — on an acyclic constraint graph `Blocks::totalOrder` (the DFS as coded)
+   never runs out of fuel and returns a topological order listing every variable once;
  * `gen_compareConstraints_is_model` — the comparison the model's pairing heaps use IS the function
    regenerated from constraint.cpp (`Gen/Comparators.compareConstraints`) on the key record of the state;
  * `static_satisfy_post` / `static_solve_post` — a normal return means the exit scan passed: every
@@ -32,6 +34,7 @@ constraint handed back joins two DIFFERENT blocks (`findMinIn_ext`, `findMinOut_
 constraint of its own block (`findMinLM_blk`) are proved.
 -/
 import AdaptaVerif.Lemmas.VpscStatic
+import AdaptaVerif.Lemmas.VpscStaticOrder
 import AdaptaVerif.Lemmas.VpscKktOpt
 import AdaptaVerif.Props.C02Model
 import AdaptaVerif.Gen.Comparators
@@ -68,6 +71,37 @@ theorem gen_compareConstraints_is_model (st : St) (hs : HS) (a b : Nat)
   by_cases h1 : hs.cts[a]! < hs.bts[blkOf st (st.cons[a]!).l]! ∨ blkOf st (st.cons[a]!).l = blkOf st (st.cons[a]!).r <;>
   by_cases h2 : hs.cts[b]! < hs.bts[blkOf st (st.cons[b]!).l]! ∨ blkOf st (st.cons[b]!).l = blkOf st (st.cons[b]!).r <;>
   simp only [h1, h2, if_true, if_false] <;> grind
+
+/-! ## `Blocks::totalOrder` -/
+
+open AdaptaVerif.Lemmas.VpscStaticOrder in
+/-- **static_totalOrder_topological**: for `Solver(vs, cs)` on well-formed input whose constraint graph is
+    acyclic, `Blocks::totalOrder()` (the depth-first search `dfsVisit` from every variable without
+    incoming constraint, finished variables pushed to the front) does not run out of fuel and returns a
+    topological order: no variable twice, every variable listed, and for every constraint the left
+    variable strictly before the right variable.  All n, m, constraint multigraphs (duplicates included). -/
+theorem static_totalOrder_topological (vs : Array (Rat × Rat × Rat)) (cs : Array Con)
+    (hv : ∀ c ∈ cs, c.l < vs.size ∧ c.r < vs.size ∧ c.unsat = false)
+    (hac : Acyclic (SSt.init vs cs).st) :
+    (totalOrder (SSt.init vs cs).st).2 = true ∧
+    (totalOrder (SSt.init vs cs).st).1.Nodup ∧
+    (∀ v, v < (SSt.init vs cs).st.vars.size → v ∈ (totalOrder (SSt.init vs cs).st).1) ∧
+    ∀ ci, ci < (SSt.init vs cs).st.cons.size →
+      Before (totalOrder (SSt.init vs cs).st).1 ((SSt.init vs cs).st.cons[ci]!).l ((SSt.init vs cs).st.cons[ci]!).r := by
+  have hI := init_inv vs cs hv
+  have hok := totalOrder_ok (SSt.init vs cs).st hI
+  exact ⟨hok, totalOrder_topological (SSt.init vs cs).st hI hac hok⟩
+
+open AdaptaVerif.Lemmas.VpscStaticOrder in
+/-- `totalOrder` never runs out of the model's fuel, whatever the graph (cycles included) -/
+theorem static_totalOrder_total (vs : Array (Rat × Rat × Rat)) (cs : Array Con)
+    (hv : ∀ c ∈ cs, c.l < vs.size ∧ c.r < vs.size ∧ c.unsat = false) :
+    (totalOrder (SSt.init vs cs).st).2 = true :=
+  totalOrder_ok (SSt.init vs cs).st (init_inv vs cs hv)
+
+-- non-vacuity: an acyclic system and its order (0 before 2 before 1 before 3 …)
+#guard (totalOrder (SSt.init #[(10, 1, 1), (0, 1, 1), (-100, 1000, 1), (-50, 1, 1)]
+          #[mkCon 0 2 1 false, mkCon 0 1 1 false, mkCon 1 3 1 false]).st) == ([0, 1, 3, 2], true)
 
 /-! ## post-conditions of `satisfy` / `solve` (the exit scans) -/
 
